@@ -23,8 +23,8 @@ META = {
 META["claim"] += " " + "Also: look-alike hosts with the domain's dot replaced, and caller cookies equal to / contained in jar cookies."
 META["claim"] += " " + "Round 3b: Host-header override to and from the cookie's domain; Set-Cookie data of 5-12 kB per response."
 
-DOMAINS = ["x.t", "X.T", ".x.t", "s.x.t", "y.t", "t", None]
-PROBES = ["x.t", "X.t", "s.x.t", "ax.t", "y.t", "t", "x-t", "s-x.t", "sxx.t"]
+DOMAINS = ["x.t", "X.T", ".x.t", "s.x.t", "y.t", "t", None, "::1"]
+PROBES = ["x.t", "X.t", "s.x.t", "ax.t", "y.t", "t", "x-t", "s-x.t", "sxx.t", "[::1]", "[::2]"]
 
 
 def cookie_sets(names):
@@ -113,6 +113,12 @@ def history_case(res, W, rng, hst):
 
     H.make_net(on_conn)
     stored = False
+    # half of the histories pass one and the same custom-header list object to every connection, as an application keeping its
+    # headers in a module constant does
+    shared = ["X-App: c20"] if (len(hst) + sum(len(cs) for _, cs in hst)) % 2 == 0 else None
+    hkw = {"header": shared} if shared is not None else {}
+    if shared is not None:
+        res.count("histories_with_shared_header_list")
     for hi, (domain, cs) in enumerate(hst):
         two_lines = len(cs) == 2 and rng.random() < 0.5
         dom = f"; Domain={domain}" if domain is not None else ""
@@ -125,7 +131,7 @@ def history_case(res, W, rng, hst):
         plan["next_set_cookie"] = lines
         plan["redirect"] = rng.random() < 0.15
         try:
-            w = W.create_connection(f"ws://setter{hi}.test/", timeout=2)
+            w = W.create_connection(f"ws://setter{hi}.test/", timeout=2, **hkw)
             w.shutdown()
         except Exception as e:  # noqa
             res.violation("connect-failed", f"history {hst}: {type(e).__name__}: {e}", {"history": hst}, exc_type=type(e).__name__)
@@ -138,6 +144,7 @@ def history_case(res, W, rng, hst):
         # the Host header override names a virtual host; cookies follow the host actually connected to
         override = rng.choice([None, None, None, "x.t", "y.t", "front.test:8443", "S.X.T"])
         kw = {"cookie": caller} if caller else {}
+        kw.update(hkw)
         if override:
             kw["host"] = override
             res.count("probes_with_host_override")
@@ -150,7 +157,7 @@ def history_case(res, W, rng, hst):
         req = requests[n0]
         _, _, _, headers, _ = RH.parse_request(req)
         ck = RH.get_all(headers, "Cookie")
-        pairs, _ = ref.header(probe, caller)
+        pairs, _ = ref.header(probe[1:-1] if probe.startswith("[") else probe, caller)
         exp_items = [f"{n}={v}" for n, v in pairs] + (caller.split("; ") if caller else [])
         res.case((hst, probe, caller), nontrivial=stored)
         res.count("cookie_headers_checked")
@@ -182,4 +189,7 @@ def history_case(res, W, rng, hst):
         names = [g.split("=", 1)[0] for g in jar_part]
         if names != sorted(names):
             res.violation("cookie-order", f"history {hst} probe {probe}: Cookie {ck[0]!r} not sorted by name", case, order="not-name-sorted")
+        if shared is not None and shared != ["X-App: c20"]:
+            res.violation("cookie-leak", f"history {hst} probe {probe}: the caller's header list was changed to {shared!r}", case, probe_class="caller-header-list")
+            return
         res.sample(case, cap=3)
